@@ -104,7 +104,12 @@ func cmdVerify(args []string) {
 				nf++
 			}
 		}
-		fmt.Printf("%s: %d obligations, %d discharged, %d not; paths=%d exits=%d gen+solve=%.1fs\n", k, len(r.Obls), nd, nf, r.Paths, r.Exits, time.Since(t0).Seconds())
+		cst, cfail := v.runCanaries([]*FuncResult{r}, envOr("VERIF_OUT", "/verif/out")+"/smt/dev/canary", 100)
+		fmt.Printf("%s: %d obligations, %d discharged, %d not; paths=%d exits=%d gen+solve=%.1fs canaries=%v\n", k, len(r.Obls), nd, nf, r.Paths, r.Exits, time.Since(t0).Seconds(), cst)
+		if cfail != "" {
+			fmt.Printf("  VACUOUS: %s\n", cfail)
+			bad++
+		}
 		if r.Unsupported != "" {
 			fmt.Printf("  UNSUPPORTED: %s\n", r.Unsupported)
 			bad++
@@ -112,6 +117,9 @@ func cmdVerify(args []string) {
 		for _, o := range r.Obls {
 			if o.Status != "discharged" || *verbose {
 				fmt.Printf("  [%s] %s (%s %.2fs) %s\n", o.Status, o.Name, o.Backend, o.Time, o.Pos)
+				if *dump && *verbose && o.Status == "discharged" && o.Note != "" {
+					fmt.Printf("      file: %s\n", o.Note)
+				}
 				if o.Status != "discharged" {
 					bad++
 					fmt.Printf("      trace: %s\n", strings.Join(o.Trace, " > "))
